@@ -85,7 +85,11 @@ var (
 func theFarm() *vaultFarm {
 	farmOnce.Do(func() {
 		farm = &vaultFarm{fakes: map[string]*VaultFake{}, quit: make(chan struct{})}
-		farm.srv = httptest.NewServer(http.HandlerFunc(farm.serve))
+		farm.srv = httptest.NewUnstartedServer(http.HandlerFunc(farm.serve))
+		// keep-alive as usual: an idle time-out on this side would race with the next request (a PUT is not
+		// retried), no keep-alive at all exhausts the ephemeral ports; the harness closes the idle
+		// connections of a history's Vault client when the history ends
+		farm.srv.Start()
 	})
 	return farm
 }
